@@ -1,23 +1,19 @@
 import Dhcp.V6.Domain
+import DhcpProofs.Lemmas.LabelApi
 /-
-  The only place where the DHCPv6 round-trip proofs look inside the
-  rfc1035label model: a label set in decoded form (`LabelsOK`) serialises to its
-  original bytes, which parse back to the same set.
+  The only place where the DHCPv6 round-trip proofs touch the rfc1035label
+  model: a label set in decoded form (`LabelsOK`) serialises to its original
+  bytes, which parse back to the same set.
 -/
 namespace Dhcp.V6
 open Dhcp
 
 theorem labels_rt (l : Label.Labels) (h : LabelsOK l) : Label.fromBytes l.toBytes = .ok l := by
   obtain ⟨b, ho, hp⟩ := h
-  cases l with
-  | mk orig labs =>
-    simp only at ho hp
-    subst ho
-    have hb : (labs == labs) = true := by simp
-    have ht : Label.Labels.toBytes ⟨some b, labs⟩ = b := by
-      simp only [Label.Labels.toBytes, Option.getD_some, hp, Option.isSome_some, Bool.true_and, hb,
-        if_true]
-    rw [ht]
-    simp only [Label.fromBytes, hp]
+  have hf : Label.fromBytes b = .ok l := by
+    rw [Label.fromBytes_of_labelsFromBytes hp]
+    cases l with
+    | mk orig labs => simp only at ho; subst ho; rfl
+  exact Label.fromBytes_toBytes_fromBytes hf
 
 end Dhcp.V6
